@@ -1,12 +1,12 @@
 SPECIFICATION Spec
 CONSTANTS
   ServerUnit = "utf16"
-  UnitNames = {"a", "emoji", "nl", "crlf"}
+  UnitNames = {"a", "eacute", "emoji", "nl", "crlf"}
   MaxUnits = 2
   MaxLen = 3
   MaxNotifs = 3
   MaxBatch = 1
-  MaxChan = 1
+  MaxChan = 2
   Lockstep = FALSE
   AllowSlack = TRUE
   AllowReplace = TRUE
@@ -18,6 +18,4 @@ INVARIANTS
   TypeOK
   InSync
   QuiescentAgree
-  RoundTrip
-  PosRoundTrip
   ReportsFaithful
